@@ -369,6 +369,9 @@ static void c15_batch(long idx, long n, uint64_t seed) {
         (void)n;
     }
     g_distinct.flush();
+#if LV_INTERPOSE
+    if (lv::ip().pollDelays.load()) g_counts["poll_delays_injected"] = lv::ip().pollDelays.load();   // (this batch runs in a child of its own)
+#endif
     Json s; s.str("t", "batchsum").num("evaluations", g_evals);
     Json c; for (auto& kv : g_counts) c.num(kv.first, kv.second);
     s.raw("counts", c.done());
